@@ -435,6 +435,16 @@ def coq_orient(rot, mir):
     return "{| rotn := %s; mir := %s |}" % (ROTS[rot], b(mir))
 
 
+def compose_orient(r, m, k):
+    """Orientation::rotate (k = 0..3 quarter turns) / flip_horizontal (4) / flip_vertical (5), as rectangle symmetries"""
+    if k <= 3:
+        return (r + k) % 4, m
+    vert = r in (1, 3)
+    if (k == 4) == vert:          # flip across the axis that is vertical on the panel: half turn + mirror
+        return (r + 2) % 4, not m
+    return r, not m
+
+
 def coq_opts(o):
     return ("{| o_bgr := %s; o_orient := %s; o_inv := %s; o_btt := %s; o_rtl := %s; o_w := %d; o_h := %d; o_ox := %d; o_oy := %d |}"
             % (b(o["bgr"]), coq_orient(o["rot"], o["mir"]), b(o["inv"]), b(o["btt"]), b(o["rtl"]), o["w"], o["h"], o["ox"], o["oy"]))
@@ -467,6 +477,8 @@ def coq_pop(op):
         return "PClear %d" % op[1]
     if k == "so":
         return "PSetOrient %s" % coq_orient(op[1], op[2])
+    if k == "sow":        # (word, resulting rot, resulting mir): the model is given the composed orientation
+        return "PSetOrient %s" % coq_orient(op[2], op[3])
     if k == "vr":
         return "PScrollRegion %d %d" % (op[1], op[2])
     if k == "vo":
@@ -502,6 +514,8 @@ def rust_pop(op):
         return "%s %d %d" % (k, op[1], op[2])
     if k in ("sl", "wk"):
         return k
+    if k == "sow":
+        return "sow %d %s" % (len(op[1]), " ".join(map(str, op[1])))
     raise ValueError(op)
 
 
